@@ -60,6 +60,8 @@ static State baseState() {
     if (!g.isConstant() && g.hasInitializer() && g.getInitializer()->isNullValue()) { S.regions[r].w().rest = constCell(0); }
   }
   ErrnoRegion = newRegion(S, "errno", RK_ERRNO, 4, 4);
+  MapFailedRegion = newRegion(S, "MAP_FAILED", RK_FREED, 0, 0);
+  S.regions[MapFailedRegion].live = false;
   return S;
 }
 
